@@ -128,6 +128,19 @@ BfsLen == EnvN("BFS_LEN", 2)
 BfsBound == nw <= BfsLen
 EmitBfs == nw # BfsLen \/ PrintT("@@S " \o ToJson(Scenario(hist, m)))
 
+\* every text of the pools once (deterministic part of the conformance run: nothing depends on what the walks happen to draw):
+\* stored X, S and R; the text compiled -- twice, so that whatever the first attempt left behind meets the second --; run / evaluated
+\* when it compiles; everything released
+SeedAll == Seed1 \o <<A("val_new", "", "v1", "", "", 7), A("store", "c0", "v1", "", "R", 0), A("val_free", "", "v1", "", "", 0)>>
+Try(mm, as) == LET F[j \in 0..Len(as)] == IF j = 0 THEN [mm |-> mm, h |-> <<>>]
+                                           ELSE IF Pre(F[j - 1].mm, as[j]) THEN [mm |-> Post(F[j - 1].mm, as[j]), h |-> Append(F[j - 1].h, as[j])] ELSE F[j - 1]
+                IN  F[Len(as)]
+AllHist == {Try(Fold(M0, SeedAll), <<A("parse_exec", "c0", "x1", "", "", q), A("run", "c0", "x1", "", "", 0), A("parse_exec", "c0", "x2", "", "", q), A("run", "c0", "x2", "", "", 0)>>) : q \in DOMAIN Prog}
+           \cup {Try(Fold(M0, SeedAll), <<A("parse_expr", "c0", "e1", "", "", q), A("eval", "c0", "p1", "e1", "", 0), A("parse_expr", "c0", "e2", "", "", q)>>) : q \in DOMAIN Expr}
+InitAll == \E r \in AllHist : hist = SeedAll \o r.h /\ m = r.mm /\ nw = 0
+Stutter == UNCHANGED vars
+EmitAll == PrintT("@@S " \o ToJson(Scenario(hist, m)))
+
 (* design-level invariants *)
 InvOwned == LibOwned(m) /\ RvOwned(m)
 \* whatever happened, the documented release calls apply and leave nothing behind
